@@ -406,7 +406,7 @@ def check(prop, tier, run: Run, replay_case=None):
         c1 = dict(consts, EnableWrapper=False, MaxOps=3 if tier == "quick" else 4, DoEmit=True)
         r1 = _tlc("ServiceHistory.tla", c1, INVS + ["EmitCase"], (), workers=8)
         run.add_tlc(r1, "ServiceHistory/calls")
-        cases += r1.cases if tier == "quick" else __import__("harness.common", fromlist=["sample"]).sample(r1.cases, len(r1.cases) // 4, 11)
+        cases += r1.cases if tier == "quick" else __import__("harness.common", fromlist=["sample"]).sample(r1.cases, len(r1.cases) // 10, 11)
     # every wrapper history (load from any channel / target / export, never two loads in a row), all replayed
     c2 = dict(consts, Probs={1, 2}, EnableCalls=False, MaxOps=4, DoEmit=True)
     if tier == "quick":
